@@ -96,9 +96,8 @@ Proof.
     apply finish_tasks_le in F. split_all.
     assert (T1 : TInv (set_tasks s l')).
     { eapply (TInv_sub _ _ T); [|reflexivity|reflexivity|noopen_close]. setters.
-      intros t' Ht'. destruct (F t' Ht') as (t & Ht & E1 & E2). apply in_map_iff in Ht.
-      destruct Ht as (t0 & E0 & Ht0). exists t0. split; auto.
-      destruct (t_peer t0 =? p); subst t; cbn in *; split; congruence. }
+      intros t' Ht'. destruct (F t' Ht') as (t & Ht & E1 & E2). apply ungate_in in Ht.
+      destruct Ht as (t0 & Ht0 & E3 & E4 & _). exists t0. split; auto. split; congruence. }
     unfold run_shutdowns. match goal with |- context [if ?b then _ else _] => destruct b end; auto.
     now apply TInv_on_shutdown.
   - split_all; try (TInv_close T; fail). apply TInv_on_shutdown. TInv_close T.
@@ -194,9 +193,8 @@ Proof.
     apply finish_tasks_le in F. split_all.
     assert (K1 : SKInv (set_tasks s l')).
     { eapply (SK_sub _ _ K); [|setters; lia|sink_src|sink_src]. setters. apply tle2_of_le.
-      intros t' Ht'. destruct (F t' Ht') as (t & Ht & E1 & E2). apply in_map_iff in Ht.
-      destruct Ht as (t0 & E0 & Ht0). exists t0. split; auto.
-      destruct (t_peer t0 =? p); subst t; cbn in *; split; congruence. }
+      intros t' Ht'. destruct (F t' Ht') as (t & Ht & E1 & E2). apply ungate_in in Ht.
+      destruct Ht as (t0 & Ht0 & E3 & E4 & _). exists t0. split; auto. split; congruence. }
     unfold run_shutdowns. match goal with |- context [if ?b then _ else _] => destruct b end; auto.
     now apply SK_on_shutdown.
   - split_all; try (SK_close K; fail). apply SK_on_shutdown. SK_close K.
@@ -204,26 +202,20 @@ Qed.
 
 Lemma SK_drain ev : forall s s' dr ks, TInv s -> SKInv s -> drain s ev = (s', dr, ks) -> SKInv s'.
 Proof.
-  induction ev as [|e t IH]; intros s s' dr ks T K; cbn.
-  - intros H; injection H as <- _ _. exact K.
-  - destruct e.
-    + destruct (hval s p).
-      * destruct (drain s t) as [[a b] c0] eqn:E. intros H; injection H as <- _ _. eapply IH; eauto.
-      * intros H. eapply (IH _ _ _ _ _ _ H). Unshelve. all: auto.
-    + intros H. eapply (IH _ _ _ _ _ _ H). Unshelve.
-      * exact T.
-      * intros q k X. setters. unfold upd in X. destruct (q =? p) eqn:E.
-        -- apply N.eqb_eq in E. subst q. destruct X as [X|X]; [|apply K; auto].
-           apply (proj2 T). right. exact X.
-        -- apply K. exact X.
-    + destruct (drain (set_hsink (set_hopen s p false) p None) t) as [[a b] c0] eqn:E.
-      intros H; injection H as <- _ _. eapply (IH _ _ _ _ _ _ E). Unshelve.
-      * exact T.
-      * intros q k X. setters. unfold upd in X. destruct (q =? p) eqn:E2.
-        -- destruct X as [X|X]; [discriminate|]. apply N.eqb_eq in E2. subst q. apply K; auto.
-        -- apply K. exact X.
-    + intros H. eapply IH; eauto.
-    + intros H. eapply IH; eauto.
+  intros s s' dr ks T K D.
+  refine (proj2 (drain_rel (fun s s' => TInv s -> SKInv s -> TInv s' /\ SKInv s') _ _ _ _ _ ev s s' dr ks D T K)).
+  - intros s0 T0 K0. auto.
+  - intros s1 s2 s3 A B T1 K1. destruct (A T1 K1). auto.
+  - intros s0 p T0 K0. split; [exact T0|exact K0].
+  - intros s0 p T0 K0. split; [exact T0|].
+    intros q k X. setters. unfold upd in X. destruct (q =? p) eqn:E.
+    + apply N.eqb_eq in E. subst q. destruct X as [X|X]; [|apply K0; auto].
+      apply (proj2 T0). right. exact X.
+    + apply K0. exact X.
+  - intros s0 p T0 K0. split; [exact T0|].
+    intros q k X. setters. unfold upd in X. destruct (q =? p) eqn:E2.
+    + destruct X as [X|X]; [discriminate|]. apply N.eqb_eq in E2. subst q. apply K0; auto.
+    + apply K0. exact X.
 Qed.
 
 Lemma SK_task_dies s k s' ev : task_dies s k = (s', ev) -> SKInv s -> SKInv s'.
